@@ -360,6 +360,93 @@ class CompactAddr(Harness):
         return ok
 
 
+class CompactRouting(Harness):
+    """compact cache front end: every operation on a tile goes to the bundle its own address maps to --
+    the bulk fast paths (store_tiles/load_tiles: 'all tiles from a single bundle') included."""
+    modules = ['mapproxy.cache.compact']
+    functions = ['CompactCacheBase.store_tiles', 'CompactCacheBase.load_tiles', 'CompactCacheBase.store_tile', 'CompactCacheBase.load_tile',
+                 'CompactCacheBase.remove_tile', 'CompactCacheBase.is_cached', 'CompactCacheBase._get_bundle',
+                 'CompactCacheBase._get_bundle_fname_and_offset']
+    merge_bool = False
+
+    @classmethod
+    def build(cls, L, cfg):
+        c = L.mods['mapproxy.cache.compact']
+        cls_ = c.CompactCacheV1 if cfg['version'] == 1 else c.CompactCacheV2
+        cache = cls_.__new__(cls_)
+        cache.cache_dir = '/cache'
+        cache.file_permissions = cache.directory_permissions = None
+        return dict(c=c, cache=cache)
+
+    @classmethod
+    def inputs(cls, ctx, cfg):
+        v = two_addresses(zmax=cfg.get('zmax', 30))
+        return dict(a=v[:3], b=v[3:])
+
+    @classmethod
+    def prop(cls, ctx, cfg, a, b):
+        c, cache = ctx['c'], ctx['cache']
+        log = []
+
+        class Tile(object):
+            def __init__(self, coord):
+                self.coord = coord
+                self.stored = False
+                self.source = None
+                self.location = None
+
+        class RecBundle(object):
+            def __init__(self, fname, offset, **kw):
+                self.fname, self.offset = fname, offset
+
+            def _rec(self, op, tiles):
+                for t in tiles:
+                    log.append((op, t, self.fname, self.offset))
+                return True
+
+            def store_tile(self, tile, dimensions=None):
+                return self._rec('store', [tile])
+
+            def store_tiles(self, tiles, dimensions=None):
+                return self._rec('store', [t for t in tiles if not t.stored])
+
+            def load_tile(self, tile, with_metadata=False, dimensions=None):
+                return self._rec('load', [tile])
+
+            def load_tiles(self, tiles, with_metadata=False, dimensions=None):
+                return self._rec('load', [t for t in tiles if not t.source and t.coord is not None])
+
+            def remove_tile(self, tile, dimensions=None):
+                return self._rec('remove', [tile])
+
+            def is_cached(self, tile, dimensions=None):
+                return self._rec('is_cached', [tile])
+        cache.bundle_class = RecBundle
+        ta, tb = Tile(tuple(a)), Tile(tuple(b))
+        op = cfg['op']
+        if op == 'store_tiles':
+            cache.store_tiles([ta, tb])
+        elif op == 'load_tiles':
+            cache.load_tiles([ta, tb])
+        elif op == 'store_tiles3':
+            tc = Tile(tuple(a))
+            tc.stored = True
+            cache.store_tiles([ta, tc, tb])
+        else:
+            getattr(cache, op)(ta)
+            getattr(cache, op)(tb)
+        ok = True
+        seen = []
+        for (o, t, fname, offset) in log:
+            f_exp, off_exp = cache._get_bundle_fname_and_offset(t.coord)
+            x, y, z = t.coord
+            ok = AND(ok, path_eq(fname, f_exp), offset[0] == off_exp[0], offset[1] == off_exp[1],
+                     offset[0] <= x, x < offset[0] + 128, offset[1] <= y, y < offset[1] + 128)
+            seen.append(t)
+        # nothing dropped, nothing done twice
+        return AND(ok, len([t for t in seen if t is ta]) == 1, len([t for t in seen if t is tb]) == 1)
+
+
 class SqliteBulk(Harness):
     """bulk load of the single-file SQLite backends against a model cursor (rows = requested
     triples present in the table): every tile gets exactly its own row, result == all found."""
@@ -489,6 +576,16 @@ CANARIES = {
             "r = y // BUNDLEX_V1_GRID_HEIGHT * BUNDLEX_V1_GRID_HEIGHT", "r = x // BUNDLEX_V1_GRID_HEIGHT * BUNDLEX_V1_GRID_HEIGHT")]},
          dict(version=1)),
     ],
+    'CompactRouting': [
+        ('bulk store decides "one bundle" by the last tile only', {'mapproxy.cache.compact': [(
+            "            if len(bundle_files) == 1:\n                return self._get_bundle(tile_coord).store_tiles(tiles, dimensions=dimensions)",
+            "            if len(bundle_files) >= 1:\n                return self._get_bundle(tile_coord).store_tiles(tiles, dimensions=dimensions)")]},
+         dict(version=2, op='store_tiles')),
+        ('bulk load compares bundle offsets instead of files', {'mapproxy.cache.compact': [(
+            "                bundle_files.add(self._get_bundle_fname_and_offset(t.coord)[0])\n                tile_coord = t.coord\n            if len(bundle_files) == 1:\n                return self._get_bundle(tile_coord).load_tiles",
+            "                bundle_files.add(self._get_bundle_fname_and_offset(t.coord)[1])\n                tile_coord = t.coord\n            if len(bundle_files) == 1:\n                return self._get_bundle(tile_coord).load_tiles")]},
+         dict(version=2, op='load_tiles')),
+    ],
     'SqliteBulk': [
         ('rows matched by column only', {'mapproxy.cache.mbtiles': [(
             "                tile = tile_dict[(row[0], row[1])]\n                data = row[2]\n                tile.size = len(data)\n                tile.source = ImageSource(BytesIO(data))\n                if self.supports_timestamp:",
@@ -542,6 +639,11 @@ def obligations(tier, seed):
         specs.append(spec(MOD, 'SingleColourName', 'single-colour-name/tc/%d' % bands, cfg=dict(layout='tc', bands=bands)))
     for v in (1, 2):
         specs.append(spec(MOD, 'CompactAddr', 'compact-addr/v%d' % v, cfg=dict(version=v)))
+    for v in ((1, 2) if tier == 'thorough' else (2,)):
+        for op in ('store_tiles', 'load_tiles', 'store_tiles3', 'store_tile', 'load_tile', 'remove_tile', 'is_cached'):
+            if v == 1 and op in ('store_tile', 'load_tile', 'is_cached'):
+                continue
+            specs.append(spec(MOD, 'CompactRouting', 'compact-routing/v%d/%s' % (v, op), cfg=dict(version=v, op=op), cost=8))
     for kind in ('mbtiles', 'geopackage'):
         for n in ((1, 2, 3) if tier == 'thorough' else (1, 2)):
             specs.append(spec(MOD, 'SqliteBulk', 'sqlite-bulk/%s/n%d' % (kind, n), cfg=dict(kind=kind, n=n), cost=15 * n))
@@ -562,7 +664,8 @@ def obligations(tier, seed):
                                            kind='canary', timeout=60, patches=CH_CANARY2, cost=10))
     twins = dict(PathInjective=dict(layout='tc', d1='time_a', d2='time_a'), LevelPrefix=dict(layout='tc', d1='none'),
                  FileCacheOps=dict(layout='tc', d1='none', op='store_tile', link='symlink'),
-                 SingleColourName=dict(layout='tc', bands=3), CompactAddr=dict(version=2), SqliteBulk=dict(kind='mbtiles', n=2))
+                 SingleColourName=dict(layout='tc', bands=3), CompactAddr=dict(version=2), CompactRouting=dict(version=2, op='store_tiles'),
+                 SqliteBulk=dict(kind='mbtiles', n=2))
     for h, c in twins.items():
         specs.append(spec(MOD, h, 'twin/' + h, kind='witness', cfg=c))
     for h, cans in CANARIES.items():
@@ -581,15 +684,16 @@ META = dict(
                 'every FileCache operation, executed symbolically against a recording file system, touches exactly the '
                 'location of its own address+dimensions (and only creates the shared single-colour file), that level '
                 'directories are prefixes of exactly their own level, and that the bulk-load code of the SQLite backends '
-                'assigns every row to its own tile (model cursor). CrossHair confirms the per-level dispatch of the '
+                'assigns every row to its own tile (model cursor), and that the compact cache front end (bulk fast paths included, '
+                'tiles of mixed levels and bundles) hands every tile to the bundle its own address maps to. CrossHair confirms the per-level dispatch of the '
                 'per-level SQLite/GeoPackage caches (bulk == single incl. level 0; store/load/remove over mixed levels).',
-    functions=sorted(set(PathInjective.functions + LevelPrefix.functions + FileCacheOps.functions + CompactAddr.functions +
+    functions=sorted(set(PathInjective.functions + LevelPrefix.functions + FileCacheOps.functions + CompactAddr.functions + CompactRouting.functions +
                          SqliteBulk.functions + ['MBTilesLevelCache.load_tiles', 'GeopackageLevelCache.load_tiles',
                                                  'MBTilesLevelCache.store_tiles', 'GeopackageLevelCache.remove_tile'])),
     bounds='coordinates 0 <= x,y < 2^31, z <= 99 (quadkey: z <= 2/3 inside the 2^z pyramid); dimension dictionaries from a '
            'family of 6; SQLite bulk load: <= 3 tiles of one level, coords <= 2; CrossHair: lists <= 2-3, coords <= 3, levels <= 2',
     outside='SQLite itself, Redis/S3/Azure/CouchDB/Riak backends, the float detour int(x / 1000000) (exact for x < 2^52, asked '
-            'over the integers), mixed-level bulk loads (not produced by any caller)',
+            'over the integers), mixed-level bulk loads of the SQLite backends (not produced by any caller)',
     assumptions=['the file system / SQL table / index array themselves behave like maps (trusted base of the inductive step)',
                  'model cursor: rows = distinct requested triples present in the table (validated against real SQLite in the thorough tier)'],
     trusted_base=['z3 5.1', 'CrossHair 0.0.110', 'engine/symex.py structured string reasoning'],
